@@ -162,7 +162,7 @@ def run_child(work, idx, j, part, tier, seed):
     log = os.path.join(work, name + ".log")
     tmp = os.path.join(work, name + ".tmp")
     os.makedirs(tmp, exist_ok=True)
-    to = (j["timeout"] or 1800) if tier == "thorough" else min(j["timeout"] or 600, 600)
+    to = 3 * (j["timeout"] or 1800) if tier == "thorough" else min(j["timeout"] or 600, 600)  # watchdogs only
     cmd = ["timeout", "-s", "QUIT", "-k", "20", str(to), os.path.join(BIN, "vwork." + j["bin"]),
            "-tier", tier, "-seed", str(seed), "-part", str(part), "-nparts", str(j["parts"]),
            "-out", out, "-journal", jr, "-tmp", tmp]
